@@ -25,6 +25,8 @@ PATTERN_NAMES = [
 # dot-files the shipped pattern ignores: under the UMN handler they must not be read as link files either
 IGNORED_DOTFILES = [".names~", ".Links~", ".cache.old", ".cachefile", ".forward", ".message", ".hushlogin", ".kermrc", ".notar", ".where"]
 PLAIN_NAMES = ["alpha.txt", "Beta.txt", "gamma", "delta.html", "epsilon.html", "zeta.gif", "a", "A", "b c.txt",
+               # the same visible text in composed and decomposed form, and compatibility characters: different names
+               "cafe\u0301.txt", "A\u030angstro\u0308m", "\u212bngstr\u00f6m", "\ufb01le.txt", "file.txt", "\uff21.txt",
                "café.txt", "10", "9", "z.txt", "Z.txt", "_under", "-dash"]
 DOTFILES = [".hidden", ".x", ".profile"]
 DOTDIRS = [".private", ".git", ".well-known"]
@@ -142,6 +144,22 @@ def run_dir(chk: Check, sc: Scratch, idx: int, handler_name: str, handlers: str,
     hidden_meta = hide_by_metadata(rng, sub, kinds) if umn and rng.random() < 0.5 else set()
     depth = rng.choice([b"", b"d", b"d/e"])
     patt0 = driver.make_config("/").get("handlers.dir.DirHandler", "ignorepatt")
+    if umn and rng.random() < 0.4:
+        # metadata files that are symbolic links to regular files kept elsewhere in the site: same effect
+        moved = 0
+        for nm in sorted(sub.nodes):
+            node = sub.nodes[nm]
+            base = nm.rsplit(b"/", 1)[-1]
+            if node["kind"] == "file" and (nm in (b".names", b".Links", b".links2", b".zlinks") or nm.startswith(b".cap/")) \
+                    and rng.random() < 0.7:
+                store = b"zz-meta/" + nm.replace(b"/", b"_").lstrip(b".")
+                sub.file(store, node["data"])
+                del sub.nodes[nm]
+                sub.symlink(nm, (b"../" if b"/" in nm else b"") + store)
+                moved += 1
+        if moved:
+            kinds["zz-meta"] = "dir"
+            chk.count("metadata_files_that_are_symlinks", moved)
     if umn:
         # ignored dot-files (editor backups of link files, .message, .forward ...) whose text happens to be
         # link-file stanzas: they hide nothing and add nothing
